@@ -450,7 +450,12 @@ class Dx:
 
     def _kids(self, e, k, inc):
         k1 = z3.simplify(k - 1)
-        return prefix_def(self.KIDS(e, k, inc), k, cc(self.KIDS(e, k1, inc), self.F(CH(e, k1), inc)))
+        c = CH(e, k1)
+        tc = TAG(c)
+        # consequence of the definition of dx at the child (the definition itself is only unfolded where dx(child) occurs in the
+        # VC): an excluded element contributes nothing -- needed by a caller that skips such a child without calling the walker
+        excluded = z3.Implies(z3.And(k > 0, z3.Not(is_ac(tc)), z3.Or(is_fb(tc), tc == W_MOVEFROM)), self.F(c, inc) == lit(""))
+        return prefix_def(self.KIDS(e, k, inc), k, cc(self.KIDS(e, k1, inc), self.F(c, inc))) + [excluded]
 
     def run_item(self, c, inc):
         return z3.If(TAG(c) == W_T, self.h(TEXT(c)), z3.If(is_brk(TAG(c)), self.ws, self.F(c, inc)))
